@@ -10,7 +10,7 @@ PROPS = ["C11"]
 GEN_GROUPS = ["Tbs"]
 ASSERT_PREFIXES = ["assert", "should", "check", "maynotbe", "is", "spec", "verify"]
 
-ATOMS = ["print", "printf", "sleep", "eq", "asserteq", "assert", "assert2", "helper_assert", "helper_plain", "other", "new", "assertcaps", "assertmay"]
+ATOMS = ["print", "printf", "sleep", "eq", "asserteq", "assert", "assert2", "helper_assert", "helper_plain", "other", "new", "assertcaps", "assertmay", "asserteq3"]
 
 
 def atom_calls(atom, line, cls, pkg):
@@ -26,6 +26,9 @@ def atom_calls(atom, line, cls, pkg):
         return [{"Package": pkg, "NodeName": cls, "FunctionName": "compare", "Parameters": [{"TypeValue": "a"}, {"TypeValue": "a"}], "Position": pos}]
     if atom == "asserteq":
         return [{"Package": pkg, "NodeName": cls, "FunctionName": "assertEquals", "Parameters": [{"TypeValue": "1"}, {"TypeValue": "1"}], "Position": pos}]
+    if atom == "asserteq3":
+        # the same assertion method with a message argument: another arity, the same method
+        return [{"Package": pkg, "NodeName": cls, "FunctionName": "assertEquals", "Parameters": [{"TypeValue": "\"m\""}, {"TypeValue": "1"}, {"TypeValue": "2"}], "Position": pos}]
     if atom == "assert":
         return [{"Package": pkg, "NodeName": cls, "FunctionName": "assertTrue", "Parameters": [{"TypeValue": "ok"}], "Position": pos}]
     if atom == "hassert":
@@ -74,7 +77,13 @@ def _rand_atoms(rng):
         return [rng.choice(ATOMS)]
     if r < 0.4:
         return [rng.choice(["assert", "asserteq"])] * rng.choice([4, 5, 6]) + ([rng.choice(ATOMS)] if rng.random() < 0.5 else [])
-    if r < 0.48:
+    if r < 0.44:
+        # one assertion method called at least five times in all, with and without its message argument (3 + 2, 4 + 1, 2 + 2)
+        a, b = rng.choice([(3, 2), (4, 1), (2, 2), (2, 3), (1, 4)])
+        l = ["asserteq3"] * a + ["asserteq"] * b
+        rng.shuffle(l)
+        return l
+    if r < 0.52:
         # several different methods called repeatedly: an assertion and a non-assertion both above the duplicate limit, in either order
         a = [rng.choice(["assert", "asserteq"])] * rng.choice([5, 6])
         b = [rng.choice(["other", "eq", "print"])] * rng.choice([5, 6, 7])
@@ -127,6 +136,7 @@ ATOM_STMT = {
     "sleep": ("expr", ("call", ("name", "Thread"), "sleep", [("lit", "10")])),
     "eq": ("expr", ("call", None, "compare", [("name", "a"), ("name", "a")])),
     "asserteq": ("expr", ("call", None, "assertEquals", [("lit", "1"), ("lit", "1")])),
+    "asserteq3": ("expr", ("call", None, "assertEquals", [("lit", '"m"'), ("lit", "1"), ("lit", "2")])),
     "assert": ("expr", ("call", None, "assertTrue", [("name", "ok")])),
     "assert2": ("expr", ("call", None, "verifyAll", [("name", "x"), ("name", "y")])),
     "assertcaps": ("expr", ("call", None, "VerifyState", [("name", "x")])),
@@ -238,7 +248,7 @@ def is_assert_name(n):
     return any(n.lower().startswith(p) for p in ASSERT_PREFIXES)
 
 
-ATOM_FN = {"print": "println", "printf": "printf", "sleep": "sleep", "eq": "compare", "asserteq": "assertEquals", "assert": "assertTrue",
+ATOM_FN = {"print": "println", "printf": "printf", "sleep": "sleep", "eq": "compare", "asserteq": "assertEquals", "asserteq3": "assertEquals", "assert": "assertTrue",
            "assert2": "verifyAll", "assertcaps": "VerifyState", "assertmay": "mayNotBeAccessedByAnyLayer", "helper_assert": "helpAssert", "helper_plain": "helpPlain", "other": "run", "new": ""}
 
 
@@ -262,7 +272,7 @@ def expected(classes):
                     exp.append(("SleepyTest", ac["path"], m["_lines"][str(i)]))
                 if a in ("eq", "asserteq"):
                     exp.append(("RedundantAssertionTest", ac["path"], None))
-            has_assert = any(a in ("assert", "asserteq", "assert2", "assertcaps", "assertmay") for a in atoms) or \
+            has_assert = any(a in ("assert", "asserteq", "asserteq3", "assert2", "assertcaps", "assertmay") for a in atoms) or \
                 any(a == "helper_assert" and "hassert" in ac["helpers"]["helpAssert"] for a in atoms)
             if atoms and not has_assert:
                 exp.append(("UnknownTest", ac["path"], None))
